@@ -12,7 +12,8 @@ RULE = ('operation sequences on real of_mod2sparse matrices (allocate, insert, f
         'copy_filled_matrix, sparse<->dense) with a full dump after every mutating operation (every row traversal forwards and backwards, every '
         'column traversal, find on every cell, emptiness, weights, entry-pool blocks and free-list length) under ASan/LSan; exhaustive: every '
         'sequence up to the stated length over a 12-operation alphabet on two 2x2 matrices; random: long sequences on dimensions up to 40x70 '
-        'with recycled entries and more than one pool block; compared with the Lean model line by line and with an independent Python set '
+        'with recycled entries and more than one pool block, and matrices of more than 1024/2048 entries that are cleared (directly, by copy, by '
+        'conversion), refilled, cleared again and freed; compared with the Lean model line by line and with an independent Python set '
         'model (oracle); non-trivial = distinct operation sequence')
 
 def close(lines):
@@ -237,6 +238,30 @@ def conversion_case(rng, name):
     body += ['s2d 0 4', 'ddump 4', 'd2s 4 0', 'sdump 0', 'sfree 0', 'sfree 1', 'dfree 4']
     return corr.mk(name, body)
 
+def multiblock_case(rng, name):
+    """a matrix that needs more than one pool block (> 1024 entries), then cleared - directly or as the destination of a copy or of a
+    dense-to-sparse conversion - and then used again, cleared again and freed: what a clear that mishandles the block list breaks"""
+    nr = rng.randint(34, 44); nc = rng.randint(36, 60)
+    nr1 = rng.randint(2, 5)
+    body = ['salloc 0 %d %d' % (nr, nc), 'salloc 1 %d %d' % (nr1, rng.randint(2, 6)), 'dalloc 4 %d %d' % (nr, nc)]
+    cells = [(r, c) for r in range(nr) for c in range(nc)]
+    rng.shuffle(cells)
+    want = rng.choice([1025, 1030, 1100, 1300, 2049, 2100]); want = min(want, len(cells))
+    body += ['sins 0 %d %d' % rc for rc in cells[:want]]
+    body += ['sins 1 0 0', 'sins 1 1 1', 'sdump 0']
+    for rnd in range(rng.randint(1, 3)):
+        how = rng.choice(['clear', 'copy', 'd2s', 'copyrows', 'clear'])
+        if how == 'clear': body.append('sclear 0')
+        elif how == 'copy': body.append('scopy 1 0')
+        elif how == 'copyrows': body.append('scopyrows 1 0 %s' % ','.join(str(rng.randrange(nr1)) for _ in range(nr)))
+        else: body += ['dset 4 %d %d 1' % (rng.randrange(nr), rng.randrange(nc)), 'd2s 4 0']
+        body.append('sdump 0')
+        again = rng.choice([0, 5, 1030])
+        body += ['sins 0 %d %d' % rc for rc in rng.sample(cells, min(again, len(cells)))]
+        if again: body.append('sdump 0')
+    body += ['sfree 0', 'sfree 1', 'dfree 4']
+    return corr.mk(name, body)
+
 def gen_cases(rng, tier):
     cases = exhaustive_cases(4 if tier == 'quick' else 5)
     nexh = len(cases)
@@ -246,6 +271,8 @@ def gen_cases(rng, tier):
         cases.append(random_case(rng, 'big%d' % i, big=True))
     for i in range(150 if tier == 'quick' else 3000):
         cases.append(conversion_case(rng, 'cv%d' % i))
+    for i in range(4 if tier == 'quick' else 40):
+        cases.append(multiblock_case(rng, 'mb%d' % i))
     return cases, nexh
 
 def run(res, tier, seed, gen_errs):
